@@ -27,7 +27,14 @@ _current = count()
 
 def generate_checking_code(typ):
     if hasattr(typ, "codegen"):
-        return typ.codegen()
+        cg = typ.codegen()
+        if isinstance(typ, DependentType) and is_dependent(typ.bound):
+            # The bound has a condition of its own, to evaluate first
+            # (whatever checking code the type itself generates)
+            return combine(
+                "({} and {})", [generate_checking_code(typ.bound), cg]
+            )
+        return cg
     else:
         return CodeGen("isinstance({arg}, {this})", this=typ)
 
@@ -91,13 +98,7 @@ class DependentType(type):
         raise NotImplementedError()
 
     def codegen(self):
-        cg = CodeGen("{this}.check({arg})", this=self)
-        if is_dependent(self.bound):
-            # The bound has a condition of its own, to evaluate first
-            return combine(
-                "({} and {})", [generate_checking_code(self.bound), cg]
-            )
-        return cg
+        return CodeGen("{this}.check({arg})", this=self)
 
     def __type_order__(self, other):
         if isinstance(other, DependentType):
